@@ -423,6 +423,11 @@ fn derive_ack(b: &[u8], req_xid: u32, plain: bool) -> Option<AckInfo> {
     if y == 0 || y == u32::MAX || yiaddr[0] >= 224 {
         return None;
     }
+    // the directed broadcast address of the granted subnet is not a unicast address either
+    let plen = mask.leading_ones();
+    if plen < 31 && y | !mask == y {
+        return None;
+    }
     let router = get(3).and_then(|v| if v.len() >= 4 { Some([v[0], v[1], v[2], v[3]]) } else { None });
     let lease_s = get(51).and_then(be32).map(|l| l as u64).unwrap_or(120);
     Some(AckInfo { yiaddr, prefix: mask.leading_ones() as u8, router, lease_s, default_timers: get(58).is_none() && get(59).is_none(), plain })
